@@ -116,3 +116,14 @@ def run(F, R):
             "the wholesale-store matcher no longer matches its positive example")
     R.check(n == 0, "R29.4", "requests-record-never-replaced", dl_bodies[0].where() if dl_bodies else "-", "no wholesale store to a Requests record in %d dataloader bodies" % len(dl_bodies),
             "%d wholesale stores" % n)
+
+    R.rule("R29.5", "enable_cache takes effect whatever came before: in enable_cache the per-type flag (Requests.disable_cache) is stored on every path to the "
+                    "return — for a key type the loader has not seen yet the record is created (entry().or_insert_with), not skipped")
+    ec = [b for b in F.find(DL + r"::\{impl#\d+\}::enable_cache") if b.kind == "coroutine"]
+    R.floor("R29.5", "enable_cache bodies", len(ec), 1)
+    for b in ec:
+        stores = sorted({bb for bb, st in b.all_stmts() if any(isinstance(f, str) and f == ".disable_cache" for f in st[0][1:])})
+        skip = [e for e in b.exits() if e in b.reachable(0, avoid=stores)]
+        R.check(bool(stores) and not skip, "R29.5", "enable_cache:flag-stored-on-every-path", b.where(), "disable_cache stored on every path",
+                "enable_cache can return without storing the flag (e.g. when the loader has no record for the key type yet): `enable_cache(false)` as the first operation "
+                "silently does nothing and later loads are cached")
